@@ -1,5 +1,6 @@
 import JediModel.Gen.C20
 import JediModel.Lemmas.SysPath
+import JediModel.Model.ProjFile
 /-! # C20 — Project settings round-trip and shape sys.path as documented
 
 Property theorems only.  `sysPath` is `Project._get_sys_path` with the composition order and the
@@ -8,7 +9,7 @@ breaks these proofs at `lake build`. -/
 namespace JediModel.Props.C20
 open JediModel.SysPath
 open JediModel.Gen.C20 (composeOrder traversedReversed initAttrs initParams savePopped
-  serializerVersion envPathStr pathAlwaysAbsolute)
+  serializerVersion envPathStr pathAlwaysAbsolute saveOpenMode)
 
 /-- `Project._get_sys_path` as found in the source -/
 def sysPath (c : Cfg) (w : World) (addParent addInit : Bool) : List String :=
@@ -299,6 +300,57 @@ theorem save_raises_on_path_environment :
       parsePath (pathStr p.path) = p.path ∧
       save initAttrs savePopped serializerVersion p = .error .typeError := by
   refine ⟨_, rfl, by decide, by rfl⟩
+
+/-! ## a history of saves into one project directory
+
+`save()` followed by `load()` round-trips (above) for the file that `save` WROTE.  What `load` reads
+is the file on disk, which may already exist: an earlier save of other settings, a file of a newer
+jedi.  The theorems below are over every initial file, every list of serialisations (no bound on
+their number or lengths) and the mode string read from `Project.save` (`Gen.C20.saveOpenMode`). -/
+section history
+open JediModel.ProjFile
+
+/-- `Project.save` opens the settings file with a mode that truncates -/
+theorem save_mode_truncates : modeOf saveOpenMode = some .truncate := by decide
+
+/-- One save: whatever was there, the file holds exactly the new serialisation. -/
+theorem save_replaces_file (old : Option Str) (new : Str) : write .truncate old new = new := by
+  cases old <;> rfl
+
+/-- Any history of saves into one directory: the file holds exactly the LAST serialisation - no
+trace of an earlier, longer one. -/
+theorem save_history_last_wins (old : Option Str) (ws : List Str) (w : Str) :
+    writeAll .truncate old (ws ++ [w]) = some w := by
+  induction ws generalizing old with
+  | nil => simp [writeAll, save_replaces_file]
+  | cons v vs ih => simpa [writeAll] using ih (some (write .truncate old v))
+
+/-- ... and a `load()` after EVERY save of the history sees exactly what that save wrote. -/
+theorem save_history_trace (old : Option Str) (ws : List Str) : trace .truncate old ws = ws := by
+  induction ws generalizing old with
+  | nil => rfl
+  | cons v vs ih => simp [trace, save_replaces_file, ih]
+
+/-- Why the mode matters: without truncation the file equals the new serialisation iff the old file
+was not longer (so the FIRST save into a fresh directory, and every longer re-save, look fine). -/
+theorem overwrite_ok_iff (o new : Str) : write .overwrite (some o) new = new ↔ o.length ≤ new.length := by
+  simp [write, List.drop_eq_nil_iff]
+
+/-- witness: saving shorter settings over longer ones leaves the old tail behind
+(`json.load`: "Extra data") -/
+theorem overwrite_leaves_tail :
+    writeAll .overwrite none ["[1, {\"a\": [\"x\"]}]".toList, "[1, {}]".toList]
+      = some "[1, {}]\": [\"x\"]}]".toList := by decide
+
+/-- witness: appending never round-trips a second save -/
+theorem append_keeps_old (o new : Str) (h : o ≠ []) : write .append (some o) new ≠ new := by
+  simp only [write]
+  intro e
+  have := congrArg List.length e
+  simp at this
+  exact h this
+
+end history
 
 /-! ## non-vacuity: the hypotheses above are satisfiable by non-trivial inputs -/
 
